@@ -732,6 +732,25 @@ def replay(prop_id, path):
     return 0
 
 
+def libcheck(tier, seed):
+    """Validates coq/Lib against the Python built-ins; exit 2 on any disagreement."""
+    mod = importlib.import_module("harness.props.lib")
+    log = {}
+    build(log)
+    rng = random.Random(seed)
+    cases = list(mod.generate(rng, mod.BUDGET["thorough" if tier == "thorough" else "quick"], tier))
+    items = list(zip(cases, run_impl_all(mod, cases)))
+    with Scratch() as scratch:
+        ab, hb, errs = evaluate(mod, scratch, items, tag="lib")
+    if errs:
+        print("MACHINERY-ERROR: library check shards failed: %s" % errs[:1])
+        return 2
+    for i in ab[:10]:
+        print("MACHINERY-ERROR: coq/Lib disagrees with Python on", json.dumps(jsonable(items[i]), default=repr))
+    print("LIB: %d cases, %d disagreements" % (len(items), len(ab)))
+    return 2 if ab else 0
+
+
 def relock():
     lock = {}
     for name in sorted(os.listdir(os.path.join(VERIF, "harness", "props"))):
